@@ -234,12 +234,11 @@ theorem ContHead.prefix (h : ContHead) :
   | mutex => decide
   | contention => decide
 
-theorem splitLines_printContention (d : ContDoc) (h : d.wf = true) : splitLines (printContention d) = d.lines := by
+theorem ContDoc.lines_ok (d : ContDoc) (h : d.wf = true) : ∀ l ∈ d.lines, LineOK l := by
   simp only [ContDoc.wf, Bool.and_eq_true, List.all_eq_true, decide_eq_true_eq] at h
   obtain ⟨⟨⟨hattrs, hrecs⟩, hpost⟩, hmap⟩ := h
   have hmap' : ∀ m, d.map = some m → m.wf = true := by
     intro m hm; rw [hm] at hmap; exact hmap
-  apply splitLines_unlines
   intro l hl
   simp only [ContDoc.lines, List.mem_append, List.mem_singleton, List.mem_flatMap] at hl
   rcases hl with (((hl | ⟨a, ha, hl⟩) | ⟨r, hr, hl⟩) | hl) | hl
@@ -265,6 +264,9 @@ theorem splitLines_printContention (d : ContDoc) (h : d.wf = true) : splitLines 
       simp only [ContRec.print]; lineok; exact hlit
   · exact LineOK_fillers (List.all_eq_true.2 hpost) l hl
   · exact LineOK_tailLines LineOK_sentinelMemoryMap hmap' l hl
+
+theorem splitLines_printContention (d : ContDoc) (h : d.wf = true) : splitLines (printContention d) = d.lines :=
+  splitLines_unlines _ (d.lines_ok h)
 
 theorem parseContention_printContention (cyc : CycFn) (d : ContDoc) (h : d.wf = true) :
     parseContention cyc (printContention d) = .ok (expectedContention cyc d) := by
